@@ -11,7 +11,10 @@ public attributes:
                    segment_names, path.links) is a Line that is one of g.lines (by identity), reports g as
                    owner, and - when it carries an identifier (S/P/E/G/O/U: the name; L/C: the ID tag, when it
                    holds a string) - is what g.line(identifier) returns;
-                   the same for every element of every back-reference collection
+                   the same for every element of every back-reference collection;
+                   a line that reaches *another* line carrying its own identifier (a group or path that was accepted
+                   although it lists itself: the placeholder made for the item carries the name of the group) is
+                   reported under the same clause: a lookup can return only one of the two
   * symmetry       for every pair (X, T): number of references from X to T == number of occurrences of X
                    in T's back-reference collections (all collections of T together)
   * no zombies     follows from closure (a disconnected line has .gfa None and is not in g.lines)
@@ -33,6 +36,19 @@ Generated besides the plain add/rm/rename histories (all through _hist.py profil
       of an ordinary duplicate.  Refused or not, afterwards every line must still be listed and found under its
       identifier
     - identifiers given to connected L/C lines ("giveid": line.set("ID", n), fresh or in use)
+  * one history in six (gen_case index i % 6 == 2: the base history is generated exactly as before, then one or two calls
+    are inserted at random positions, _hist_extra.inject_listed_identifiers) also holds
+    - lines that list their own, fresh, identifier ("fail:self-mention:<RT>"): GFA1 "P x A+,x+,B- *", GFA2 "O x A+ x+",
+      "U x A x", "E x A+ x- ...", "G x x+ A- ..." (x first, in the middle or last).  The placeholder created for the
+      reference would carry the identifier of the line itself; refused or not, the graph must stay closed with every
+      line found under its identifier
+    - (GFA1) paths of three or four segment names the third or fourth of which is the identifier of a stored path or
+      ID-tagged link / containment ("fail:mention-nonsegment:late"; _hist's own mention-nonsegment paths have two names,
+      i.e. no step before the offending one): the path is refused, and none of the links of its earlier steps may keep it
+      in `paths`
+    - one in four of these calls as a line *object* ("addset" steps, see _hist_extra): gfapy.Line(text) without the
+      offending reference, then the reference field (sid1 / sid2 / items / segment_names) assigned in its string form,
+      then g.add_line(line); 15% of them with an ordinary value (a legal line, accepted)
 
 Failures found after a step that *raised* are reported under the prefix "after-failed-step-" (the property
 speaks of sequences of additions/removals/..., a rejected call is C08's subject) and end the history, so a
@@ -42,8 +58,8 @@ Signatures (one report per history: the most basic broken clause, see PRIORITY):
     <clause>-after-<op>                 clause in {walk-raises, owner-wrong, listed-twice, reference-not-a-line, reaches-disconnected,
                                         reaches-line-not-in-gfa, not-found-under-identifier, reference-field-raises,
                                         reference-not-mirrored-to-<RT>, backreference-without-reference-to-<RT>,
-                                        reparse-fails}; op in {add-<RT>, rm, rmline-<RT>, disconnect, rename, settag, deltag,
-                                        setfield (only `name` := None)}
+                                        reparse-fails}; op in {add-<RT>, addset-<RT>, rm, rmline-<RT>, disconnect, rename, settag,
+                                        deltag, setfield (only `name` := None)}
     after-failed-step-<clause>-after-<op>   the same, found right after a call that raised
     foreign-exception                   a call raised something that is not a gfapy.Error (graph still closed)
 On the pinned tree: reaches-disconnected-after-rm/rmline/disconnect = DESIGN 7 #1; reference-not-mirrored-to-G = #2;
@@ -58,7 +74,9 @@ NOT CHECKED (deliberately, the property text does not demand it or is silent):
     g.lines only, not for g.line(ID).
   * the order of elements inside collections.
   * a line whose identifier is also the name of a placeholder (virtual line), or the reverse, is not reported
-    as "not found under its identifier" (identifier clashes with merely mentioned names are not pinned down).
+    as "not found under its identifier" (identifier clashes with merely mentioned names are not pinned down) -
+    unless one of the two lines refers to the other (then both are lines of the Gfa reached by the walk, and only one
+    of them can be what a lookup of the identifier returns).
   * orphan virtual lines (placeholders nobody references any more) are not reported.
   * reparse is skipped while virtual lines exist, at vlevel 0, when the version is still unknown, when the Gfa
     is empty, and when a group was left with no item (its last item was a removed gap: the property does not
@@ -68,6 +86,7 @@ NOT CHECKED (deliberately, the property text does not demand it or is silent):
 """
 from harness import lib
 from harness.props import _hist as H
+from harness.props import _hist_extra as X
 
 ID = "C02"
 RULE = ("exhaustive: every history of length <= 4 (quick) / <= 5 (thorough) over a 7-step alphabet per version (2 segments, 2 links, a path, rm, rename / segment, edge, gap, O, U, rm segment, rm edge); random: histories (4-25 steps quick, up to 60 thorough) over segments A-D, edges e1-e3, gaps g1-g2, groups "
@@ -78,6 +97,10 @@ RULE = ("exhaustive: every history of length <= 4 (quick) / <= 5 (thorough) over
         "one history in six also with GFA1 links that arrive for a path step covered by a placeholder link only and "
         "carry the identifier of another line, and with identifiers given to connected L/C lines by set('ID', n) "
         "(20% calls meant to fail there); "
+        "one history in six with one or two inserted lines that list their own fresh identifier (P / O / U / E / G, the "
+        "identifier first, in the middle or last) or (GFA1) paths whose third or fourth segment name is the identifier of "
+        "a path / link / containment, one in four of them added as a line object whose reference field was assigned in "
+        "string form after construction; "
         "12% of histories start with the version unknown. Non-trivial: at least "
         "one removal/disconnect/rename in a history with at least two additions. Distinct by case hash.")
 
@@ -106,7 +129,12 @@ def budget(tier):
 
 
 def gen_case(rng, tier, i):
-    return H.gen_case(rng, tier, PROF_ID if i % 6 == 5 else PROF, p_unknown=0.12, vlevels=(1, 1, 1, 1, 1, 1, 0, 2, 3))
+    case = H.gen_case(rng, tier, PROF_ID if i % 6 == 5 else PROF, p_unknown=0.12, vlevels=(1, 1, 1, 1, 1, 1, 0, 2, 3))
+    if i % 6 == 2:
+        # the base history is what it always was; calls that list their own identifier / name a line of another type in a
+        # later path step are inserted into it
+        case = X.inject_listed_identifiers(rng, case, p_object=0.25, p_second=0.3, control=0.15)
+    return case
 
 
 def nontrivial(case):
@@ -182,6 +210,12 @@ def walk(g):
                 if y is not x and not x.virtual and not (y is not None and y.virtual):
                     F.append("not-found-under-identifier: %r reached from %r but line(%r) is %r" %
                              (str(x), str(src), n, str(g.line(n))))
+                elif x is not src and src.record_type in NAMED_RT and src.name == n:
+                    # two lines of the Gfa, one referring to the other, carry the same identifier (a line that lists
+                    # itself was accepted and the placeholder of the item wears its name): whatever a lookup answers,
+                    # one of them is not found under its identifier
+                    F.append("not-found-under-identifier: %r and %r, reached from it, both carry the identifier %r; "
+                             "line(%r) is %r" % (str(src), str(x), n, n, None if y is None else str(y)))
         return ok
 
     once = set()
@@ -235,7 +269,7 @@ def oracle(case):
     gfapy = lib.import_gfapy()
     g = H.new_gfa(case)
     for k, step in enumerate(case["hist"]):
-        r = H.apply_step(g, step)
+        r = X.apply_step(g, step)
         if r[0] == "skip":
             continue
         failed = r[0] != "ok"
@@ -253,11 +287,11 @@ def oracle(case):
         if F:
             f = _first(F)
             head, _, rest = f.partition(":")
-            return ["%s%s-after-%s:%s [step %d %r -> %s]" % (pre, head, H.step_kind(step), rest, k, step,
+            return ["%s%s-after-%s:%s [step %d %r -> %s]" % (pre, head, X.step_kind(step), rest, k, step,
                                                             r[0] if r[0] == "ok" else r[1])]
         if r[0] == "foreign":
             # state is still closed; the exception itself is C07's subject but is reported as the API asks
-            return ["foreign-exception: %s raises %s [step %d %r]" % (H.step_kind(step), r[1], k, step)]
+            return ["foreign-exception: %s raises %s [step %d %r]" % (X.step_kind(step), r[1], k, step)]
     return []
 
 
